@@ -13,7 +13,7 @@ def register(R):
   # extension: fresh ghost integers, so the assumption can never be vacuous).
   R.cls('ShardConfig', dict(shard_index='int', num_shards='int', start_index='int', parent='ShardConfig?',
                             g_start='int', g_end='int', g_ok='bool'),
-        frozen=True, lazy=('parent', 'g_start', 'g_end', 'g_ok'), on_new=_unfold_state,
+        frozen=True, lazy=('parent', 'g_start', 'g_end', 'g_ok'), ghost=('g_start', 'g_end', 'g_ok'), on_new=_unfold_state,
         on_field=lambda it, obj, f: _unfold_state(it, obj) if f == 'parent' else None)
   # `data` is abstracted to a sized opaque object (its own behaviour is verified
   # separately on MergedSequences); its class is MergedSequences (established by
@@ -22,6 +22,7 @@ def register(R):
                                    _start='int', _end='int?'), frozen=True)
   R.cls('ShardedIterable', dict(data='obj', _shard_state='ShardConfig'), frozen=True)
   R.ghost_factories['root_len'] = root_len
+  R.opaque_iter = _opaque_iter
   R.hasattr_hook = lambda it, v, name: True
   R.isinstance_hook = _isinstance
 
@@ -53,6 +54,13 @@ def register(R):
     s, e, i, n = (it.to_int(x) for x in a)
     q, r = (e - s) / n, (e - s) % n
     return VInt(q + z3.If(i < r, 1, 0))
+
+
+def _opaque_iter(it, v):
+  """iter() of user data / of a slice of it: reads its items in order (fault-free here)."""
+  j = z3.Int(it.path.fresh_name('j'))
+  src = VSeq(z3.Lambda([j], item_of(v.t, j)), len_of(v.t), 'obj')
+  return VIter(src, z3.IntVal(0), None, True, None, tag='iter(data)')
 
 
 def root_len(it):
